@@ -9,6 +9,7 @@ package main
 
 import (
 	"context"
+	"encoding/hex"
 	"errors"
 	"fmt"
 	"io"
@@ -18,6 +19,7 @@ import (
 	"strings"
 	"sync"
 	"sync/atomic"
+	"unicode/utf8"
 
 	"github.com/paulmach/osm"
 	"github.com/paulmach/osm/osmapi"
@@ -36,26 +38,64 @@ type Case struct {
 	Call string `json:"call"`
 	// Via: 0 = method on a Datasource with its own Client; 1 = package level
 	// function (osmapi.DefaultDatasource); 2 = method on NewDatasource(nil),
-	// which borrows DefaultDatasource.Client.
+	// which borrows DefaultDatasource.Client; 3 = method on
+	// NewDatasource(client) with the case's own client.
 	Via     int     `json:"via"`
 	ID      int64   `json:"id"`
 	IDs     []int64 `json:"ids"`
 	Version int     `json:"version"`
 	Bounds  int     `json:"bounds"` // index into boundsAlphabet
 	Query   string  `json:"query"`
-	Opts    []Opt   `json:"opts"`
-	Base    int     `json:"base"`    // index into bases
-	Limiter int     `json:"limiter"` // 0 none, 1 recording, 2 failing
-	Status  int     `json:"status"`
-	Body    int     `json:"body"` // index into bodyShapes
+	// QueryHex, if set, is the search text as hex bytes (a text that is not
+	// valid UTF-8 does not survive the JSON of a replay file); Query is then unused.
+	QueryHex string `json:"query_hex,omitempty"`
+	Opts     []Opt  `json:"opts"`
+	Base     int    `json:"base"`    // index into bases
+	Limiter  int    `json:"limiter"` // 0 none, 1 recording, 2 failing
+	Status   int    `json:"status"`
+	Body     int    `json:"body"` // index into bodyShapes
 	// Prev, if set (Via 0 only), is a call made first on the SAME Datasource and
-	// http.Client (its own status and body); the judged call must behave exactly
-	// as on a fresh Datasource: nothing of an earlier call may stick.
+	// http.Client (its own status, body, options and limiter: Prev.Limiter 2 makes
+	// the first call fail in the limiter, an invalid Prev.Opts makes it fail before
+	// that); the judged call must behave exactly as on a fresh Datasource: nothing
+	// of an earlier call, failed or not, may stick.
 	Prev *Case `json:"prev,omitempty"`
 }
 
+// query is the search text of the case.
+func (c *Case) query() string {
+	if c.QueryHex != "" {
+		b, err := hex.DecodeString(c.QueryHex)
+		if err != nil {
+			kit.Fatalf("bad query_hex %q", c.QueryHex)
+		}
+		return string(b)
+	}
+	return c.Query
+}
+
+// withQuery stores q so that it survives a replay file.
+func withQuery(c Case, q string) Case {
+	if utf8.ValidString(q) {
+		c.Query, c.QueryHex = q, ""
+	} else {
+		c.Query, c.QueryHex = "", hex.EncodeToString([]byte(q))
+	}
+	return c
+}
+
 func (c *Case) argString() string {
-	s := fmt.Sprintf("%s via%d id=%d ids=%v v=%d b=%d q=%q opts=%v base=%d lim=%d", c.Call, c.Via, c.ID, c.IDs, c.Version, c.Bounds, c.Query, c.Opts, c.Base, c.Limiter)
+	ids := fmt.Sprint(c.IDs)
+	if c.IDs == nil {
+		ids = "nil"
+	} else if len(c.IDs) > 12 {
+		ids = fmt.Sprintf("[%d ids %d..%d]", len(c.IDs), c.IDs[0], c.IDs[len(c.IDs)-1])
+	}
+	q := c.query()
+	if len(q) > 64 {
+		q = fmt.Sprintf("%s...(%d bytes)", q[:32], len(q))
+	}
+	s := fmt.Sprintf("%s via%d id=%d ids=%s v=%d b=%d q=%q opts=%v base=%d lim=%d", c.Call, c.Via, c.ID, ids, c.Version, c.Bounds, q, c.Opts, c.Base, c.Limiter)
 	if c.Prev != nil {
 		s += " after[" + c.Prev.String() + "]"
 	}
@@ -229,7 +269,8 @@ func checkCase(r *kit.Run, c *Case) {
 		fp = c.String()
 	}
 	nontrivial := c.Status != 200 || c.Body != 1 || len(c.Opts) > 0 || c.Limiter != 0 || c.Base != 0 || c.Via != 0 ||
-		c.ID > 1<<31-1 || (e.Args == argIDList && len(c.IDs) != 1) || c.Bounds != 0 || (e.Args == argQuery && c.Query != "asdf")
+		c.ID > 1<<31-1 || (e.Args == argIDList && len(c.IDs) != 1) || c.Bounds != 0 || (e.Args == argQuery && c.query() != "asdf") ||
+		((e.Args == argID || e.Args == argIDVersion) && c.ID < 1) || (e.Args == argIDVersion && (c.Version < 1 || c.Version > 1000))
 	r.Case(fp, nontrivial)
 
 	es := bodyElems(e, c.Body)
@@ -254,6 +295,12 @@ func checkCase(r *kit.Run, c *Case) {
 			px := &exchange{status: c.Prev.Status, body: bodyXML(pe, bodyElems(pe, c.Prev.Body))}
 			rt := &switchRT{cur: px}
 			ds = &osmapi.Datasource{BaseURL: bases[c.Base], Client: &http.Client{Transport: rt}}
+			switch c.Prev.Limiter {
+			case 1:
+				ds.Limiter = &limiter{x: px}
+			case 2:
+				ds.Limiter = &limiter{x: px, err: errLimiter}
+			}
 			pa := buildArgs(pe, c.Prev)
 			guarded(func() outcome { return impls[c.Prev.Call].method(ds, pa) })
 			rt.cur = x
@@ -284,6 +331,13 @@ func checkCase(r *kit.Run, c *Case) {
 		got = guarded(func() outcome { return impls[c.Call].method(ds, a) })
 		osmapi.DefaultDatasource = saved
 		globalMu.Unlock()
+	case 3:
+		// the constructor with a client of the caller's; DefaultDatasource is not
+		// replaced (a request that reaches its client ends in the trap)
+		ds = osmapi.NewDatasource(client)
+		ds.BaseURL = bases[c.Base]
+		ds.Limiter = lim
+		got = guarded(func() outcome { return impls[c.Call].method(ds, a) })
 	default:
 		kit.Fatalf("bad via %d", c.Via)
 	}
@@ -327,8 +381,9 @@ func checkCase(r *kit.Run, c *Case) {
 	default:
 		if len(x.reqs) != 1 {
 			// nothing else can be judged without the one exchange
-			if n := atomic.SwapInt64(&escaped, 0); n != 0 {
-				viol("requests/escaped", fmt.Sprintf("%d requests bypassed the configured client", n))
+			if n := atomic.SwapInt64(&escaped, 0); n != 0 || (got.Err != nil && strings.Contains(got.Err.Error(), "c20: request escaped")) {
+				// (the counter is shared by the parallel workers; the trap's own error names the case)
+				viol("requests/escaped", "a request bypassed the configured client")
 			} else if len(x.reqs) == 0 && len(c.Opts) > 0 && got.Err != nil && waits == 0 {
 				viol("options/valid-rejected-"+fam, fmt.Sprintf("valid option set %v rejected", c.Opts))
 			} else {
@@ -432,7 +487,7 @@ func wantSample(c *Case) bool {
 	case "Notes":
 		return c.Status == 200 && c.Limiter == 2 && c.Body == 2 && c.Bounds == 1 && len(c.Opts) == 2 && c.Opts[0].Kind == "closed" && c.Opts[1].N == 10
 	case "NotesSearch":
-		return c.Status == 503 && c.Limiter == 1 && c.Body == 1 && c.Query != "" && c.Query != "asdf" && len(c.Opts) == 1 && c.Opts[0].Kind == "limit" && c.Opts[0].N == 10000
+		return c.Status == 503 && c.Limiter == 1 && c.Body == 1 && c.Query != "" && c.Query != "asdf" && c.QueryHex == "" && len(c.Opts) == 1 && c.Opts[0].Kind == "limit" && c.Opts[0].N == 10000
 	}
 	return false
 }
@@ -482,11 +537,175 @@ func argShapes(e *endpoint, quick bool) []Case {
 			out = append(out, Case{Bounds: i})
 		}
 	case argQuery:
-		for _, q := range queryAlphabet {
-			out = append(out, Case{Query: q})
+		n := nFullQueries
+		if !quick {
+			n = len(queryAlphabet)
+		}
+		for _, q := range queryAlphabet[:n] {
+			out = append(out, withQuery(Case{}, q))
 		}
 	}
 	return out
+}
+
+// ---- boundary values: one dimension at a time (edge pass) ----
+
+// edgeIDs: 0 and -1 (the documented path template takes whatever id the caller
+// passes), the widths at which an encoding could change, the extremes of int64.
+var edgeIDs = []int64{0, -1, 127, 128, 1 << 32, 1<<53 + 1, 1<<63 - 1, -1 << 63}
+
+// manyIDs is an id list far longer than any other: still ONE request.
+var manyIDs = func() []int64 {
+	out := make([]int64, 1000)
+	for i := range out {
+		out[i] = int64(1000-i) * 7919 // descending
+	}
+	return out
+}()
+
+func edgeArgShapes(e *endpoint) []Case {
+	var out []Case
+	switch e.Args {
+	case argID:
+		for _, id := range edgeIDs {
+			out = append(out, Case{ID: id})
+		}
+	case argIDVersion:
+		out = append(out, Case{ID: 1, Version: 0}, Case{ID: 1, Version: -1}, Case{ID: 0, Version: 1}, Case{ID: -1, Version: 1},
+			Case{ID: 128, Version: 10}, Case{ID: 1 << 32, Version: 1 << 31}, Case{ID: 1<<53 + 1, Version: 1<<63 - 1},
+			Case{ID: 1<<63 - 1, Version: 1<<31 - 1}, Case{ID: -1 << 63, Version: -1 << 63})
+	case argIDList:
+		out = append(out, Case{IDs: nil}, Case{IDs: []int64{0}}, Case{IDs: []int64{-1, 1<<63 - 1}}, Case{IDs: []int64{7, 7}},
+			Case{IDs: []int64{-1 << 63, 1<<53 + 1, 128}}, Case{IDs: manyIDs})
+	case argBounds:
+		for _, i := range edgeBounds {
+			out = append(out, Case{Bounds: i})
+		}
+	case argQuery:
+		for _, q := range queryAlphabet[nFullQueries:] {
+			out = append(out, withQuery(Case{}, q))
+		}
+	}
+	return out
+}
+
+// edgeOptShapes: boundary values of every option, each option given twice with
+// the same value (two different values of one option are not enumerated: the
+// documentation does not say which one wins), an invalid Limit after a valid one.
+func edgeOptShapes(e *endpoint) [][]Opt {
+	switch e.Opts {
+	case optFeature:
+		var out [][]Opt
+		for i := nFullAts; i < len(atAlphabet); i++ {
+			out = append(out, []Opt{{"at", i}})
+		}
+		return append(out, []Opt{{"at", 1}, {"at", 1}}, []Opt{{"at", 3}, {"at", 3}})
+	case optNotes:
+		return [][]Opt{
+			{{"limit", 2}}, {{"limit", 9999}}, {{"limit", -1}}, {{"limit", 1 << 31}}, {{"limit", 1<<32 + 5}},
+			{{"limit", 1<<63 - 1}}, {{"limit", -1 << 63}}, {{"limit", -1<<32 + 5}},
+			{{"closed", 1}}, {{"closed", 36500}}, {{"closed", 1 << 31}}, {{"closed", 1<<32 + 7}},
+			{{"limit", 5}, {"limit", 5}}, {{"closed", 7}, {"closed", 7}}, {{"closed", 0}, {"limit", 1}, {"closed", 0}},
+			{{"limit", 5}, {"limit", 0}}, {{"limit", 10001}, {"limit", 5}},
+		}
+	}
+	return nil
+}
+
+// statuses outside 200-299 / 400-599 that net/http hands to its caller like any
+// other (no redirect is followed for 300, 304, 305, 306; 6xx-9xx are three-digit
+// codes no class is defined for). 1xx and the redirecting 3xx stay excluded.
+var edgeStatuses = []int{300, 304, 600, 999}
+
+// repCase is the representative argument shape of an endpoint (the last one of
+// the quick alphabet: the id / ids beyond 2^40, the 7-decimal box, the query
+// with reserved characters).
+func repCase(e *endpoint, withOpts bool) Case {
+	args := argShapes(e, true)
+	c := args[len(args)-1]
+	c.Call = e.Call
+	if withOpts {
+		switch e.Opts {
+		case optFeature:
+			c.Opts = []Opt{{"at", 1}}
+		case optNotes:
+			c.Opts = []Opt{{"limit", 10}, {"closed", 7}}
+		}
+	}
+	return c
+}
+
+// edgeCases builds the edge pass: every boundary value of ONE dimension against
+// a reduced product of the others (quick: 2 bases incl. the percent-escaped one,
+// limiter none / recording, statuses 200 / 404 / 500, bodies one / two; thorough:
+// every base and limiter, the 17 quick statuses + the edge statuses, 9 bodies).
+func edgeCases(quick bool) (cases []Case, perDim map[string]int) {
+	perDim = map[string]int{}
+	dBases, dLims, dSts, dBodies := []int{0, 3}, []int{0, 1}, []int{200, 404, 500}, []int{1, 2}
+	if !quick {
+		dBases = nil
+		for i := range bases {
+			dBases = append(dBases, i)
+		}
+		dLims = []int{0, 1, 2}
+		dSts = append(append([]int{}, quickStatuses...), edgeStatuses...)
+		dBodies = []int{0, 1, 2, 3, 4, 5, bodyThreeSameID, bodyOneBigID, bodyTwoExtreme}
+	}
+	allLims := []int{0, 1, 2}
+	add := func(dim string, c Case, call string, via int, opts []Opt, bs, ls, sts, bodies []int) {
+		for _, b := range bs {
+			for _, l := range ls {
+				for _, st := range sts {
+					for _, body := range bodies {
+						k := c
+						k.Call, k.Via, k.Opts, k.Base, k.Limiter, k.Status, k.Body = call, via, opts, b, l, st, body
+						cases = append(cases, k)
+						perDim[dim]++
+					}
+				}
+			}
+		}
+	}
+	for i := range endpoints {
+		e := &endpoints[i]
+		rep := repCase(e, false)
+		repOpts := [][]Opt{nil}
+		if o := repCase(e, true).Opts; o != nil {
+			repOpts = append(repOpts, o)
+		}
+		// A: arguments
+		for _, a := range edgeArgShapes(e) {
+			for _, o := range repOpts {
+				add("args", a, e.Call, 0, o, dBases, dLims, dSts, dBodies)
+			}
+		}
+		// B: options (with the failing limiter too: an invalid option fails first)
+		for _, o := range edgeOptShapes(e) {
+			add("options", rep, e.Call, 0, o, dBases, allLims, dSts, dBodies)
+		}
+		// C: base URLs that are not part of the full product
+		var eb []int
+		for b := nFullBases; b < len(bases); b++ {
+			eb = append(eb, b)
+		}
+		small := argShapes(e, true)[0]
+		for _, o := range repOpts {
+			add("bases", rep, e.Call, 0, o, eb, allLims, dSts, dBodies)
+			add("bases", small, e.Call, 0, o, eb, []int{0}, []int{200}, []int{1})
+		}
+		// D: statuses
+		for _, o := range repOpts {
+			add("statuses", rep, e.Call, 0, o, dBases, dLims, edgeStatuses, []int{0, 1, 2, 3})
+		}
+		// E: bodies
+		add("bodies", rep, e.Call, 0, nil, []int{0}, []int{0, 1}, []int{200, 201, 304, 404, 500},
+			[]int{bodyThreeSameID, bodyOneBigID, bodyTwoExtreme, bodyMany})
+		// F: the constructor with a client
+		for _, o := range repOpts {
+			add("via_new_datasource_with_client", rep, e.Call, 3, o, []int{0, 1}, allLims, []int{200, 403, 404, 410, 414, 500}, []int{0, 1, 2})
+		}
+	}
+	return cases, perDim
 }
 
 func optShapes(e *endpoint, quick bool) [][]Opt {
@@ -525,7 +744,7 @@ func statuses(quick bool) []int {
 	for s := 400; s <= 599; s++ {
 		out = append(out, s)
 	}
-	return out
+	return append(out, 300, 304, 305, 306, 600, 700, 999) // see edgeStatuses
 }
 
 func main() {
@@ -537,6 +756,16 @@ func main() {
 			"x base URL (unset, custom with port and path prefix, https) x limiter (none, recording, failing) " +
 			"x status (17 in quick; all of 200-299 and 400-599 in thorough) x body (0, 1, 2 elements of the returned kind, 1 + foreign kinds, foreign only; thorough: 3 unsorted + foreign). " +
 			"Sequence pass: every ordered pair of calls (with and without options, first call answered 200 / 404) on ONE Datasource and http.Client, the second call judged like a first call. " +
+			"The sequence pass also runs every pair whose FIRST call failed before any request (limiter refused; invalid option). " +
+			"Edge pass (boundary values of one dimension at a time against a reduced product of the others - quick: default and percent-escaped base, limiter none/recording, status 200/404/500, bodies one/two; thorough: all bases and limiters, 21 statuses, 9 bodies): " +
+			"ids 0, -1, 127, 128, 2^32, 2^53+1, 2^63-1, -2^63; versions 0, -1, 10, 2^31, 2^63-1, -2^63; id lists nil, [0], negative + 2^63-1, a repeated id, 1000 ids; " +
+			"boxes all-zero, zero as upper / lower bounds, across the antimeridian (MinLon > MaxLon), whole world, the limits and one 6th-decimal step below; " +
+			"search texts of whitespace, control characters + NUL + ';', a broken percent-escape, text that looks like the options, 3/4-byte UTF-8, invalid UTF-8, 5.5 kB; " +
+			"At(zero time), unix 0, 1969 with half a second, 2300, 9999-12-31T23:59:59.999999999, a zone offset with seconds; each option twice with the same value; " +
+			"Limit 2, 9999, -1, 2^31, 2^32+5, -2^32+5, 2^63-1, -2^63; MaxDaysClosed 1, 36500, 2^31, 2^32+7; an invalid Limit after / before a valid Limit; " +
+			"base URL with an IPv6 literal, a port and no path; statuses 300, 304, 600, 999 (net/http follows no redirect for them); " +
+			"bodies with three versions of one id, an element id of 2^40+7, ids 2^63-1 and 0, 250 elements + foreign kinds; NewDatasource(client) with a client of the caller's. " +
+			"Every argument shape (quick alphabet + boundary values) also once per package-level function and nil-Client method. " +
 			"A case is non-trivial unless it is the plain happy path (status 200, one element, no options, no limiter, default base, small id); " +
 			"fingerprints drop status and body when no request may be sent (failing limiter, invalid options).")
 		r.Assume("the endpoint table in props/c20/table.go transcribes the API v0.6 documentation correctly (written from memory of the wiki page, no network)")
@@ -572,6 +801,18 @@ func main() {
 			}
 		}
 		r.Set("datasource_methods_not_in_table", uncovered)
+		// inputs the property text does not decide: never run, listed so that nobody
+		// takes their absence for coverage
+		r.Set("classes_not_enumerated_because_the_property_does_not_decide_them", []string{
+			"one option passed twice with two different values (which one wins / whether both are sent is not documented)",
+			"At() of an instant whose UTC year is outside 0001..9999 (no RFC 3339 spelling)",
+			"MaxDaysClosed below -1 (only -1 and >= 0 are documented)",
+			"a base URL with a trailing slash, a query string or userinfo",
+			"NaN / infinite bounds, a nil *osm.Bounds, a nil option, a nil or cancelled context",
+			"1xx and redirecting 3xx statuses (301, 302, 303, 307, 308: decided by net/http)",
+			"200 responses whose body is empty or not well-formed XML",
+			"Client == nil while DefaultDatasource.Client == nil (falls to http.DefaultClient: real network)",
+		})
 		if len(uncovered) > 0 {
 			r.Note(fmt.Sprintf("exported Datasource methods without a table entry (not checked): %v", uncovered))
 		}
@@ -580,7 +821,7 @@ func main() {
 		sts := statuses(quick)
 		nbodies := 5
 		if !quick {
-			nbodies = len(bodyShapes)
+			nbodies = bodyThreeSameID + 1 // + three-unsorted+foreign, three-same-id
 		}
 
 		// serial pass: package level functions and the nil-Client fallback
@@ -613,25 +854,26 @@ func main() {
 				}
 			}
 		}
+		// ... and every argument shape (quick alphabet + boundary values) once per
+		// package level function / nil-Client method: plain happy path
+		for via := 1; via <= 2; via++ {
+			for i := range endpoints {
+				e := &endpoints[i]
+				for _, c := range append(argShapes(e, true), edgeArgShapes(e)...) {
+					c.Call, c.Via, c.Status, c.Body = e.Call, via, 200, 1
+					checkCase(r, &c)
+					serial++
+					perFamily[e.Family]++
+				}
+			}
+		}
 		r.Set("cases_package_level_and_nil_client", serial)
 
 		// sequence pass: every ordered pair of calls on one Datasource and one
 		// http.Client; the second call is judged exactly like a first call
 		pairs := 0
-		rep := func(e *endpoint, withOpts bool) Case {
-			args := argShapes(e, true)
-			c := args[len(args)-1]
-			c.Call = e.Call
-			if withOpts {
-				switch e.Opts {
-				case optFeature:
-					c.Opts = []Opt{{"at", 1}}
-				case optNotes:
-					c.Opts = []Opt{{"limit", 10}, {"closed", 7}}
-				}
-			}
-			return c
-		}
+		var seq []Case // run on all cores below: these cases touch no package state
+		rep := repCase
 		for i := range endpoints {
 			for j := range endpoints {
 				for _, po := range []bool{false, true} {
@@ -649,7 +891,7 @@ func main() {
 									prev.Status, prev.Body = pst, 2
 									c := rep(&endpoints[j], bo)
 									c.Status, c.Body, c.Limiter, c.Base, c.Prev = st, 1, lim, 1, &prev
-									checkCase(r, &c)
+									seq = append(seq, c)
 									pairs++
 								}
 							}
@@ -658,7 +900,52 @@ func main() {
 				}
 			}
 		}
+		// ... and after a first call that FAILED before any request: in the limiter
+		// (which is then replaced), or on an invalid option (notes calls only)
+		for i := range endpoints {
+			for j := range endpoints {
+				for pfail := 1; pfail <= 2; pfail++ {
+					if pfail == 2 && endpoints[i].Opts != optNotes {
+						continue
+					}
+					for _, bo := range []bool{false, true} {
+						if bo && endpoints[j].Opts != optFeature && endpoints[j].Opts != optNotes {
+							continue
+						}
+						for _, st := range []int{200, 410} {
+							for lim := 0; lim <= 1; lim++ {
+								prev := rep(&endpoints[i], false)
+								prev.Status, prev.Body = 200, 1
+								if pfail == 1 {
+									prev.Limiter = 2
+								} else {
+									prev.Opts = []Opt{{"closed", 7}, {"limit", 0}}
+								}
+								c := rep(&endpoints[j], bo)
+								c.Status, c.Body, c.Limiter, c.Base, c.Prev = st, 1, lim, 1, &prev
+								seq = append(seq, c)
+								pairs++
+							}
+						}
+					}
+				}
+			}
+		}
 		r.Set("cases_second_call_on_same_datasource", pairs)
+		r.Par(len(seq), func(i int) {
+			c := seq[i]
+			checkCase(r, &c)
+		})
+
+		// edge pass: boundary values, one dimension at a time
+		edge, perDim := edgeCases(quick)
+		for dim, n := range perDim {
+			r.Set("cases_edge_"+dim, n)
+		}
+		r.Par(len(edge), func(i int) {
+			c := edge[i]
+			checkCase(r, &c)
+		})
 
 		// parallel pass: methods on private Datasources, the full product
 		var shapes []shape
@@ -666,7 +953,7 @@ func main() {
 			e := &endpoints[i]
 			for _, a := range argShapes(e, quick) {
 				for _, o := range optShapes(e, quick) {
-					for base := range bases {
+					for base := 0; base < nFullBases; base++ {
 						for lim := 0; lim <= 2; lim++ {
 							c := a
 							c.Call, c.Opts, c.Base, c.Limiter = e.Call, o, base, lim
